@@ -245,7 +245,11 @@ def rule_law(ck, rid="C14.R7"):
     u, v, w = S.symbols("u v w", positive=True)
     ts, P, s0 = 1 - u, 1 - v, 1 - w
     env = {dvar: D, maxn: M, pvar: P, "self._transition_soc": ts, "self._soc": s0, "self.soc": s0}
-    fl.keep = {dvar, maxn, pvar}
+    from .c03 import capped_aliases
+    alias = capped_aliases(fl, dvar, maxn)         # `capped = min(raw, maximum)`: the formulas are written over the capped rate
+    for a_ in alias:
+        env[a_] = D
+    fl.keep = {dvar, maxn, pvar} | alias
     try:
         # (a) the adjusted breakpoint is where the ramp-down line meets the pilot rate
         for n, val, lv in adj[pvar]:
